@@ -7,7 +7,7 @@ from . import model
 from .codec import canon, dec, enc
 
 KEYS = ["a", "b", "c", "d", "e", "f", "g", "h", "k", "m", "n", "p", "q", "r", "s", "t", "u", "w", "x", "y", "z",
-        "a1", "b2", "ab", "cd", "e_f", "g_h", "xy", "zz", "Kk", "q9"]
+        "a1", "b2", "ab", "cd", "e_f", "g_h", "xy", "zz", "Kk", "q9", "q_", "w__v"]      # trailing / doubled underscores: doubled dashes in options
 LEAF_KINDS = ["string", "loglevel", "appmode", "int", "float", "port", "bool", "ipv4addr", "ipv4net", "hostname",
               "filename", "url", "bytes", "secure", "challenge", "list", "dict", "any"]
 ITEM_KINDS = ["string", "int", "float", "bool", "ipv4addr", "bytes", "port", "hostname", "url", "secure", "challenge"]
@@ -378,6 +378,16 @@ def _default_arg(B, o, tag):
             # cached settings); either way configurations must not end up sharing mutable state through it
             return shared if shared is not None else _dec_default(payload)
         make.__name__ = "default_%s" % tag.replace(".", "_")
+        # the factory may be any callable: a plain function, a functools.partial, an object with __call__
+        kind = _stable(tag) % 4
+        if kind == 1:
+            import functools
+            return {"default": functools.partial(lambda _unused, f=make: f(), None)}
+        if kind == 2:
+            class Factory:
+                def __call__(self):
+                    return make()
+            return {"default": Factory()}
         return {"default": make}
     return {"default": _dec_default(d)}
 
@@ -625,7 +635,7 @@ def walk(sd, cfg, visit, node=None, path="", visit_cfg=None):
             continue
         try:
             value = getattr(cfg, f["key"])
-        except AttributeError:
+        except (AttributeError, KeyError):      # KeyError: the field was declared after this configuration was built
             visit(p, f, _MISSING)
             continue
         if is_cfg_node(f):
